@@ -62,3 +62,4 @@ func vfStubCalls(suffix string) int
 // vfStubNondet: like vfStub, but the stubbed (pure) callee returns fresh symbolic scalars — a sound
 // over-approximation of any side-effect-free function of state the property does not constrain.
 func vfStubNondet(suffix string)
+func vfDigest(name string, v uint64)
